@@ -329,7 +329,9 @@ impl Schema {
                 multiple_of: match (n1.multiple_of, n2.multiple_of) {
                     (None, None) => None,
                     (None, Some(m)) | (Some(m), None) => Some(m),
-                    (Some(m1), Some(m2)) => Some(m1.lcm(&m2)),
+                    (Some(m1), Some(m2)) => Some(m1.checked_lcm(&m2).ok_or_else(|| {
+                        anyhow!("multipleOf values {:?} and {:?} are too large to combine", m1, m2)
+                    })?),
                 },
             }),
 
